@@ -134,5 +134,5 @@ def _list_shape(ctx, p, v, allow):
         return False, "select feeding the list not found"
     eq = sel["src"]["where_eq"]
     ok = sel["stmt"].table == "nameplates" and eq is not None and set(eq) == {"app_id"} \
-        and is_app_id(eq["app_id"]) and sel["stmt"].limit is None
+        and is_app_id(eq["app_id"]) and sel["stmt"].all_rows
     return ok, "" if ok else "names are read by %s" % sel["stmt"].normalized()
